@@ -2,6 +2,7 @@ import RisorModel.Util
 import RisorModel.C04.Model
 import RisorModel.C18.Model
 import RisorModel.C18.Tables
+import RisorModel.C18.Decls
 /-! Line-protocol front end of the C18 model.
 
 `hist <history>` → `ok <impl outcomes> <impl registers> <impl trace> <spec outcomes> <spec trace> <violated guards>`
@@ -423,6 +424,55 @@ def tabLog (feed : KSess → KPiece → KSess) : KSess → List KPiece → List 
     let s1 := feed s p
     tabSnap (s1.acc.getLastD false) s1.tab s1.run s.run.2.length :: tabLog feed s1 rest
 
+/-! ### layer 9: `decl <host names> <probe names> <history>`
+  history := piece ("|" piece)*   piece := stmt (";" stmt)*
+  stmt := "v" n "=" int (`n := v`) | "c" n "=" int (`const n = v`) | "f" n "=" int ":" refs (`func n() { … return v }`, refs "." separated or "-") |
+          "s" n "=" int (`n = v`) | "u" n (`try(n)`)
+  answer: `ok <impl> <spec>`; per piece ("|"): `a`/`r` ":" per probe name ("." separated) "-" (not in the table) or `c`/`v` followed by
+  "n" (never stored) | "i" int | "f" int ":" all values of expression statements so far ("." separated, "n" = nil, "-" = none) -/
+
+def parseDStmt (t : String) : Option DStmt :=
+  if t.startsWith "u" then (tl1 t).toNat?.map .use
+  else match (tl1 t).splitOn "=" with
+    | [a, b] => do
+      let n ← a.toNat?
+      if t.startsWith "f" then
+        match b.splitOn ":" with
+        | [v, rs] => do pure (.fn n (← parseIntTok v) (← parseList rs))
+        | _ => none
+      else
+        let v ← parseIntTok b
+        if t.startsWith "v" then pure (.var n v)
+        else if t.startsWith "c" then pure (.const n v)
+        else if t.startsWith "s" then pure (.set n v)
+        else none
+    | _ => none
+
+def declSnap (probes : List Nat) (s : DSess) : String :=
+  let one (n : Nat) : String :=
+    match s.env n with
+    | none => "-"
+    | some c => (if c then "c" else "v") ++
+      (match s.run.1 n with
+       | none => "n"
+       | some (.int v) => "i" ++ toString v
+       | some (.fn v) => "f" ++ toString v)
+  let val (v : Option Int) : String := match v with | none => "n" | some x => toString x
+  ":".intercalate [if s.acc.getLast? == some true then "a" else "r", dots (probes.map one), dots (s.run.2.map val)]
+
+def declLogImpl (probes : List Nat) : DSess → List DPiece → List String
+  | _, [] => []
+  | s, p :: rest => let s1 := dFeed firstPassRuns s p; declSnap probes s1 :: declLogImpl probes s1 rest
+
+def handleDecl (hs ps h : String) : String :=
+  match parseList hs, parseList ps, (h.splitOn "|").mapM (fun t => (t.splitOn ";").mapM parseDStmt) with
+  | some hosts, some probes, some pieces =>
+    let E0 := hostEnv hosts
+    let spec := (List.range pieces.length).map fun i => declSnap probes (declSpec E0 (pieces.take (i + 1)))
+    "\t".intercalate ["ok", bar (declLogImpl probes { env := E0 } pieces), bar spec]
+  | _, _, _ => "error\tbad-declaration-session"
+
+
 def handle : List String → String
   | ["hist", h] =>
     match parseHist h with
@@ -476,6 +526,7 @@ def handle : List String → String
       "\t".intercalate ["ok", bar (tabLog (tabFeed truncateDeleteGuarded) {} ps), bar (tabLog tabSpecFeed {} ps),
         bar (tabLog (tabFeed false) {} ps), tabSnap w.1.ok w.1.tab w.2 0]
     | none => "error\tbad-table-session"
+  | ["decl", hs, ps, h] => handleDecl hs ps h
   | ["frag", text] =>
     match C04.decode true text with
     | .error e => "error\t" ++ e
